@@ -472,6 +472,7 @@ const (
 	motifPurgeIndex
 	motifWindow
 	motifPreserve
+	motifManyRevs
 	numMotifs
 )
 
@@ -765,6 +766,29 @@ func genMotif(r *rand.Rand, m int, in *kvInput, exists map[string]bool, hot []st
 		}
 		kv(&KOp{Kind: "GetExpiry"})
 		kv(read())
+	case motifManyRevs:
+		// a long life: revision numbers with two digits, read back through every observer
+		kv(inserter())
+		for j := 0; j < 10+r.Intn(8); j++ {
+			switch r.Intn(7) {
+			case 0:
+				kv(&KOp{Kind: "Touch", Exp: pick(r, farExps)})
+			case 1:
+				kv(&KOp{Kind: "SetXattrs", Xs: genXs(r, false)})
+			case 2:
+				kv(&KOp{Kind: "Set", Val: sp(pick(r, jsonBodies))})
+			case 3:
+				kv(&KOp{Kind: "WriteCas", CasMode: "current", Val: sp(pick(r, jsonBodies))})
+			case 4:
+				kv(&KOp{Kind: "Incr", Amt: 1, Deflt: 3})
+			case 5:
+				kv(&KOp{Kind: "Delete"})
+			default:
+				kv(&KOp{Kind: "Update", Cb: &Callback{Kind: "set", Val: sp(pick(r, jsonBodies))}})
+			}
+		}
+		kv(&KOp{Kind: "GetWithXattrs", Names: []string{"$document", "$document.revid", "_sync"}})
+		in.Ops = append(in.Ops, Step{Kind: "dump", Coll: cn, Key: key, Start: "zero", Clock: next()})
 	case motifPurgeIndex:
 		if cn == "s1.c2" {
 			cn = "_default._default"
